@@ -62,3 +62,8 @@ func vUseRealMetaSchemas() { panic("gosym intrinsic") } // decode the embedded m
 
 func vAssumeWhole(c bool)                    { panic("gosym intrinsic") } // assumption kept as one solver conjunct
 func vValidKind(doc []byte, kind string) bool { panic("gosym intrinsic") } // validates against #/definitions/<kind> of schemas/v2/schema.json ("swagger": the root)
+
+// concurrency check (C17)
+func vShare(v interface{}, name string) { panic("gosym intrinsic") } // everything reachable from v is shared between threads
+func vTraceBegin()                      { panic("gosym intrinsic") }
+func vTraceEnd(name string)             { panic("gosym intrinsic") }
